@@ -634,6 +634,8 @@ def main():
     baseline = set(base_json["obligations"])
     # bounded stand-in: run the witness enumerator when one of the bounded-only functions changed, or in the thorough tier
     bounded_info = None
+    bounded_hits = []
+    bsumm = None
     if bounded.get("functions") or (meta.get("witness") and tier == "thorough"):
         changed = sorted(p_ for p_, h_ in bounded_hashes.items() if base_json.get("bounded_hashes", {}).get(p_) != h_)
         ran = False
@@ -645,20 +647,7 @@ def main():
                             bound=bounded.get("bound", meta.get("witness_bound", "see witness/src/bin/%s.rs" % meta.get("witness"))),
                             functions=bounded.get("functions", []), changed_since_baseline=changed, ran=ran, log=blog, summary=bsumm,
                             disagreements=len(bw), samples=bw[:3])
-        if bw:
-            rp_path = os.path.join(OUT, "replay", "%s.bounded.json" % unit)
-            json.dump(dict(property=prop, unit=unit, obligation="%s.bounded-witness" % unit, witnesses=bw, summary=bsumm,
-                           note="bounded enumeration against the real crate: the public API disagrees with the executable transcription of the textbook definition on these inputs",
-                           rerun="./check %s --tier thorough" % unit), open(rp_path, "w"), indent=1)
-            ev = dict(property_id=prop, tier=tier, seed=seed, level="proof",
-                      coverage=dict(obligations=len(obs), discharged=len([o for o in obs if o not in failed]), checker_cmd=runs[0]["cmd"], trusted_base=[],
-                                    bounded=bounded_info, evaluations=(bsumm or {}).get("evaluations", 1), distinct_nontrivial=len(bw)),
-                      assumptions=[], wall_s=round(time.time() - t_start, 2), violations=len(bw))
-            json.dump(ev, open(ev_path, "w"), indent=1)
-            w0 = bw[0]
-            print("VIOLATION property=%s replay=%s obligation=%s.bounded-witness.%s input=%s (bounded enumeration on the real code)" % (
-                prop, rp_path, unit, w0.get("op", "?"), json.dumps({k: v for k, v in w0.items() if k != "witness"})))
-            sys.exit(1)
+        bounded_hits = bw
 
     if undec and not failed:
         undecided("resource-limit", "\n".join("%s: %s" % u for u in undec))
@@ -747,6 +736,21 @@ def main():
                 print("VIOLATION property=%s replay=%s obligation=%s input=%s" % (prop, rp_path, ob, json.dumps({k: v for k, v in mine[0].items() if k != "witness"})))
             else:
                 print("VIOLATION property=%s replay=%s obligation=%s no-failing-input-found" % (prop, rp_path, ob))
+        if bounded_hits:
+            w0 = bounded_hits[0]
+            print("VIOLATION property=%s replay=%s obligation=%s.bounded-witness.%s input=%s (bounded enumeration on the real code)" % (prop, rp_path, unit, w0.get("op", "?"), json.dumps({k: v for k, v in w0.items() if k != "witness"})))
+        sys.exit(1)
+    if bounded_hits:
+        bw = bounded_hits
+        rp_path = os.path.join(OUT, "replay", "%s.bounded.json" % unit)
+        json.dump(dict(property=prop, unit=unit, obligation="%s.bounded-witness" % unit, witnesses=bw, summary=bsumm,
+                       note="bounded enumeration against the real crate: the public API disagrees with the executable transcription of the specification on these inputs",
+                       rerun="./check %s --tier thorough" % unit), open(rp_path, "w"), indent=1)
+        ev["violations"] = len(bw)
+        json.dump(ev, open(ev_path, "w"), indent=1)
+        w0 = bw[0]
+        print("VIOLATION property=%s replay=%s obligation=%s.bounded-witness.%s input=%s (bounded enumeration on the real code)" % (
+            prop, rp_path, unit, w0.get("op", "?"), json.dumps({k: v for k, v in w0.items() if k != "witness"})))
         sys.exit(1)
     if new_unlisted:
         undecided("obligation-not-on-baseline-fails", "\n".join("%s: %s" % (o, failed[o][0][:300]) for o in new_unlisted))
